@@ -493,7 +493,7 @@ theorem store_Q {p₁ : Parser κ₁} {p₂ : Parser κ₂} (hp : PR R p₁ p₂
   | scanner s => exact ⟨a, b, hc, rfl, e, hx⟩
 
 /-- **Parametricity of `Parser::parse` in the sink, both runs kept at an abort.** -/
-theorem parseLoop_relE (h : OpsRelQ ops₁ ops₂ inp R Q) (ht : EmitsChecked tbl = true)
+theorem parseLoop_relQ (h : OpsRelQ ops₁ ops₂ inp R Q) (ht : EmitsChecked tbl = true)
     (last : Bool) (n : Nat) (p₁ : Parser κ₁) (p₂ : Parser κ₂) (hp : PR R p₁ p₂) :
     (PR R (Parser.parseLoop env₁ inp last n p₁).1 (Parser.parseLoop env₂ inp last n p₂).1 ∧
       (Parser.parseLoop env₁ inp last n p₁).2 = (Parser.parseLoop env₂ inp last n p₂).2) ∨
@@ -525,14 +525,79 @@ theorem parseLoop_relE (h : OpsRelQ ops₁ ops₂ inp R Q) (ht : EmitsChecked tb
       | internal st => exact Or.inr ⟨.internal st, rfl, rfl, store_Q hp hq⟩
       | panic st => exact Or.inr ⟨.panic st, rfl, rfl, store_Q hp hq⟩
 
-theorem parse_relE (h : OpsRelQ ops₁ ops₂ inp R Q) (ht : EmitsChecked tbl = true)
+theorem parse_relQ (h : OpsRelQ ops₁ ops₂ inp R Q) (ht : EmitsChecked tbl = true)
     (last : Bool) (p₁ : Parser κ₁) (p₂ : Parser κ₂) (hp : PR R p₁ p₂) :
     (PR R (Parser.parse env₁ inp last p₁).1 (Parser.parse env₂ inp last p₂).1 ∧
       (Parser.parse env₁ inp last p₁).2 = (Parser.parse env₂ inp last p₂).2) ∨
     ∃ eA, (Parser.parse env₁ inp last p₁).2 = .error (parseErr eA) ∧
       (Parser.parse env₂ inp last p₂).2 = .error (parseErr eA) ∧
       PR Q (Parser.parse env₁ inp last p₁).1 (Parser.parse env₂ inp last p₂).1 :=
-  parseLoop_relE h ht last _ p₁ p₂ hp
+  parseLoop_relQ h ht last _ p₁ p₂ hp
 
 end
+end LolHtml.Model.RelQ
+
+/-! ### two sinks that agree on the states with an invariant -/
+
+namespace LolHtml.Model.RelQ
+open LolHtml LolHtml.Model
+
+variable {κ : Type}
+
+/-- `ops₁` and `ops₂` do the same on every state with `J` — failures included — and `J` holds again after a success
+(nothing is required after a failure) -/
+structure OpsAgree (ops₁ ops₂ : SinkOps κ) (inp : Bytes) (J : κ → Prop) : Prop where
+  handleTag : ∀ lx k, J k → ops₁.handleTag inp lx k = ops₂.handleTag inp lx k ∧
+    ∀ a, (ops₁.handleTag inp lx k).2 = .ok a → J (ops₁.handleTag inp lx k).1
+  handleNonTag : ∀ lx k, J k → ops₁.handleNonTag inp lx k = ops₂.handleNonTag inp lx k ∧
+    ∀ a, (ops₁.handleNonTag inp lx k).2 = .ok a → J (ops₁.handleNonTag inp lx k).1
+  startTagHint : ∀ n ns k, J k → ops₁.startTagHint n ns k = ops₂.startTagHint n ns k ∧
+    ∀ a, (ops₁.startTagHint n ns k).2 = .ok a → J (ops₁.startTagHint n ns k).1
+  endTagHint : ∀ n k, J k → ops₁.endTagHint n k = ops₂.endTagHint n k ∧
+    ∀ a, (ops₁.endTagHint n k).2 = .ok a → J (ops₁.endTagHint n k).1
+
+theorem relQ_of_eq {α : Type} {J : κ → Prop} {r₁ r₂ : κ × Except Err α} (he : r₁ = r₂) (hJ : ∀ a, r₁.2 = .ok a → J r₁.1) :
+    ((fun a b => a = b ∧ J a) r₁.1 r₂.1 ∧ r₁.2 = r₂.2) ∨
+    ∃ eA, r₁.2 = .error eA ∧ r₂.2 = .error eA ∧ (fun a b : κ => a = b) r₁.1 r₂.1 := by
+  subst he
+  cases hr : r₁.2 with
+  | ok a => exact Or.inl ⟨⟨rfl, hJ a hr⟩, rfl⟩
+  | error e => exact Or.inr ⟨e, rfl, rfl, rfl⟩
+
+theorem OpsAgree.toQ {ops₁ ops₂ : SinkOps κ} {inp : Bytes} {J : κ → Prop} (h : OpsAgree ops₁ ops₂ inp J) :
+    OpsRelQ ops₁ ops₂ inp (fun a b => a = b ∧ J a) (fun a b => a = b) where
+  handleTag := fun lx k₁ k₂ hk => by
+    obtain ⟨rfl, hj⟩ := hk
+    exact relQ_of_eq (h.handleTag lx k₁ hj).1 (h.handleTag lx k₁ hj).2
+  handleNonTag := fun lx k₁ k₂ hk => by
+    obtain ⟨rfl, hj⟩ := hk
+    exact relQ_of_eq (h.handleNonTag lx k₁ hj).1 (h.handleNonTag lx k₁ hj).2
+  startTagHint := fun n ns k₁ k₂ hk => by
+    obtain ⟨rfl, hj⟩ := hk
+    exact relQ_of_eq (h.startTagHint n ns k₁ hj).1 (h.startTagHint n ns k₁ hj).2
+  endTagHint := fun n k₁ k₂ hk => by
+    obtain ⟨rfl, hj⟩ := hk
+    exact relQ_of_eq (h.endTagHint n k₁ hj).1 (h.endTagHint n k₁ hj).2
+
+theorem PR_eq {p₁ p₂ : Parser κ} (hp : PR (fun a b : κ => a = b) p₁ p₂) : p₁ = p₂ := by
+  obtain ⟨a, b, c, d, e, f1, f2, f3⟩ := hp
+  obtain ⟨lc, lr, sc, sr, dr, ⟨sk, sm, pc⟩⟩ := p₁
+  obtain ⟨lc', lr', sc', sr', dr', ⟨sk', sm', pc'⟩⟩ := p₂
+  simp only at a b c d e f1 f2 f3
+  subst a b c d e f1 f2 f3
+  rfl
+
+/-- **`Parser::parse` over two sinks that agree on the states with the invariant IS the same parse** — same final parser
+(sink included), same result, failing parses included; after a successful parse the invariant holds again. -/
+theorem parse_eq_of_agree {tbl : Table} {cfg : TagCfg} {ops₁ ops₂ : SinkOps κ} {inp : Bytes} {J : κ → Prop}
+    (h : OpsAgree ops₁ ops₂ inp J) (ht : EmitsChecked tbl = true) (last : Bool) (p : Parser κ) (hJ : J p.x.sink) :
+    Parser.parse ⟨tbl, cfg, ops₁⟩ inp last p = Parser.parse ⟨tbl, cfg, ops₂⟩ inp last p ∧
+    ∀ n, (Parser.parse ⟨tbl, cfg, ops₁⟩ inp last p).2 = .ok n → J (Parser.parse ⟨tbl, cfg, ops₁⟩ inp last p).1.x.sink := by
+  rcases parse_relQ (tbl := tbl) (cfg := cfg) h.toQ ht last p p ⟨rfl, rfl, rfl, rfl, rfl, ⟨rfl, hJ⟩, rfl, rfl⟩ with
+    ⟨hp, hres⟩ | ⟨e, h1, h2, hp⟩
+  · obtain ⟨a, b, c, d, e, ⟨f1, fj⟩, f2, f3⟩ := hp
+    exact ⟨Prod.ext (PR_eq ⟨a, b, c, d, e, f1, f2, f3⟩) hres, fun _ _ => fj⟩
+  · refine ⟨Prod.ext (PR_eq hp) (by rw [h1, h2]), fun n hn => ?_⟩
+    rw [h1] at hn; cases hn
+
 end LolHtml.Model.RelQ
